@@ -43,6 +43,10 @@ class PurityViolation(Exception):
     pass
 
 
+class InfeasiblePath(Exception):
+    """a branch that was assumed feasible (lazy floating-point feasibility) turned out not to be"""
+
+
 class StopPath(Exception):
     """a block hook ends the path deliberately (e.g. one loop iteration done)"""
 
@@ -106,6 +110,7 @@ class Run:
         self.events = []
         self.known = {}
         self.blocks = set()
+        self.assumed = False
 
 
 _INT_LIT = re.compile(r'^(-?\d+)_(u8|u16|u32|u64|u128|usize|i8|i16|i32|i64|i128|isize)$')
@@ -132,6 +137,7 @@ class Engine:
         self.model_cache = []
         self.block_hook = None
         self.lazy_fp = True
+        self.any_assumed = False
         self._fp_memo = {}
 
     # ------------------------------------------------------------------
@@ -166,13 +172,18 @@ class Engine:
                         res = PathResult(list(self.run.pc), 'panic', panic=p)
                     except StopPath as sp:
                         res = PathResult(list(self.run.pc), 'stop', sp.value)
+                    except InfeasiblePath:
+                        res = None
                 finally:
                     self.solver.pop()
+                work.extend(self.run.alts)
+                if res is None:
+                    self.uni.stats['infeasible_paths_dropped'] = self.uni.stats.get('infeasible_paths_dropped', 0) + 1
+                    continue
                 res.events = self.run.events
                 res.script = list(self.run.script)
                 res.blocks = self.run.blocks
                 results.append(res)
-                work.extend(self.run.alts)
                 self.uni.stats['paths'] += 1
                 if len(results) > (max_paths or self.max_paths):
                     raise BoundExceeded('more than %d paths in %s' % (max_paths or self.max_paths, fn.name))
@@ -204,6 +215,8 @@ class Engine:
             # exploration (an infeasible path has an unsatisfiable condition and contributes nothing to any obligation,
             # which are all decided by the solver afterwards)
             self.uni.stats['assumed_feasible'] = self.uni.stats.get('assumed_feasible', 0) + 1
+            self.run.assumed = True
+            self.any_assumed = True
             return True
         # axioms created since the path started
         ax = self.uni.axioms
@@ -255,6 +268,8 @@ class Engine:
         else:
             feas = [i for i in live if self.feasible(conds[i])]
             if not feas:
+                if run.assumed or self.any_assumed:
+                    raise InfeasiblePath()
                 raise Inconclusive('no feasible branch (path condition unsatisfiable?)')
             k = feas[0]
             for j in feas[1:]:
